@@ -224,7 +224,10 @@ def run_shard(ctx):
     mod = sys.modules[__name__]
     n = 130 if ctx.tier == "quick" else 1300
     for i in range(n):
-        case = hs.gen_build(rnd, maxkeys=10 if ctx.tier == "quick" else 16)
+        bulk = i % 20 == 19
+        case = hs.gen_build(rnd, maxkeys=60, bulk=True) if bulk else hs.gen_build(rnd, maxkeys=10 if ctx.tier == "quick" else 16)
+        if bulk:
+            ctx.count("bulk_tries")
         case["pseed"] = rnd.randrange(1 << 30)
         case["alts"] = 2 if ctx.tier == "quick" else 15
         base = 2 if ctx.tier == "quick" else 3
